@@ -57,8 +57,8 @@ def keys (tags : List (String × TagVal)) : List String := tags.map (·.1)
 
 def ofUpdate (u : Update) : String × TagVal := (u.name, ⟨u.value, u.time⟩)
 
-theorem mem_upsert (tags : List (String × TagVal)) (u : Update) :
-    ∀ p ∈ upsert tags u, p ∈ tags ∨ p = ofUpdate u := by
+theorem mem_upsert (pol : Policy) (tags : List (String × TagVal)) (u : Update) :
+    ∀ p ∈ upsert pol tags u, p ∈ tags ∨ p = ofUpdate u := by
   induction tags with
   | nil => intro p hp; simp [upsert] at hp; exact Or.inr hp
   | cons q rest ih =>
@@ -69,7 +69,9 @@ theorem mem_upsert (tags : List (String × TagVal)) (u : Update) :
     · rename_i hn
       simp only [List.mem_cons] at hp
       rcases hp with rfl | hp
-      · right; simp [ofUpdate, hn]
+      · split
+        · left; simp
+        · right; simp [ofUpdate, hn]
       · left; simp [hp]
     · simp only [List.mem_cons] at hp
       rcases hp with rfl | hp
@@ -78,17 +80,17 @@ theorem mem_upsert (tags : List (String × TagVal)) (u : Update) :
         · left; simp [h]
         · right; exact h
 
-theorem keys_upsert (tags : List (String × TagVal)) (u : Update) :
-    ∀ k ∈ keys (upsert tags u), k ∈ keys tags ∨ k = u.name := by
+theorem keys_upsert (pol : Policy) (tags : List (String × TagVal)) (u : Update) :
+    ∀ k ∈ keys (upsert pol tags u), k ∈ keys tags ∨ k = u.name := by
   intro k hk
   simp only [keys, List.mem_map] at hk
   obtain ⟨p, hp, rfl⟩ := hk
-  rcases mem_upsert tags u p hp with h | h
+  rcases mem_upsert pol tags u p hp with h | h
   · left; exact List.mem_map.mpr ⟨p, h, rfl⟩
   · right; rw [h]; rfl
 
-theorem nodup_upsert (tags : List (String × TagVal)) (u : Update) (h : (keys tags).Nodup) :
-    (keys (upsert tags u)).Nodup := by
+theorem nodup_upsert (pol : Policy) (tags : List (String × TagVal)) (u : Update) (h : (keys tags).Nodup) :
+    (keys (upsert pol tags u)).Nodup := by
   induction tags with
   | nil => simp [upsert, keys]
   | cons q rest ih =>
@@ -96,27 +98,27 @@ theorem nodup_upsert (tags : List (String × TagVal)) (u : Update) (h : (keys ta
     simp only [keys, List.map_cons, List.nodup_cons] at h
     simp only [upsert]
     split
-    · simp only [keys, List.map_cons, List.nodup_cons]; exact h
+    · split <;> (simp only [keys, List.map_cons, List.nodup_cons]; exact h)
     · rename_i hn
       simp only [keys, List.map_cons, List.nodup_cons]
       refine ⟨?_, ih h.2⟩
       intro hmem
-      rcases keys_upsert rest u n hmem with h' | h'
+      rcases keys_upsert pol rest u n hmem with h' | h'
       · exact h.1 h'
       · exact hn h'
 
-theorem nodup_applyUpdates (tags : List (String × TagVal)) (ups : List Update) (h : (keys tags).Nodup) :
-    (keys (applyUpdates tags ups)).Nodup := by
+theorem nodup_applyUpdates (pol : Policy) (tags : List (String × TagVal)) (ups : List Update) (h : (keys tags).Nodup) :
+    (keys (applyUpdates pol tags ups)).Nodup := by
   induction ups generalizing tags with
   | nil => exact h
   | cons u ups ih =>
     simp only [applyUpdates, List.foldl_cons]
     split
     · exact ih tags h
-    · exact ih _ (nodup_upsert tags u h)
+    · exact ih _ (nodup_upsert pol tags u h)
 
-theorem mem_applyUpdates (tags : List (String × TagVal)) (ups : List Update) :
-    ∀ p ∈ applyUpdates tags ups, p ∈ tags ∨ ∃ u ∈ ups, p = ofUpdate u := by
+theorem mem_applyUpdates (pol : Policy) (tags : List (String × TagVal)) (ups : List Update) :
+    ∀ p ∈ applyUpdates pol tags ups, p ∈ tags ∨ ∃ u ∈ ups, p = ofUpdate u := by
   induction ups generalizing tags with
   | nil => intro p hp; exact Or.inl hp
   | cons u ups ih =>
@@ -127,15 +129,21 @@ theorem mem_applyUpdates (tags : List (String × TagVal)) (ups : List Update) :
       · exact Or.inl h
       · exact Or.inr ⟨v, by simp [hv], h⟩
     · rcases ih _ p hp with h | ⟨v, hv, h⟩
-      · rcases mem_upsert tags u p h with h' | h'
+      · rcases mem_upsert pol tags u p h with h' | h'
         · exact Or.inl h'
         · exact Or.inr ⟨u, by simp, h'⟩
       · exact Or.inr ⟨v, by simp [hv], h⟩
 
 /-! ### one call of `_persist_tag_values` -/
 
+/-- "more than the interval" as the variant tests it: `d < x` (threshold `>`) or `d ≤ x` (threshold `>=`) -/
+def Gap (pol : Policy) (d x : Rat) : Prop := if pol.strict then d < x else d ≤ x
+
+theorem gap_mono (pol : Policy) (d x y : Rat) (h : Gap pol d x) (hxy : x ≤ y) : Gap pol d y := by
+  unfold Gap at *; split at h <;> simp_all <;> grind
+
 /-- What a written batch looks like: time `h`, run `rid`. -/
-structure Batch (interval : Option Rat) (entries : List String) (rid : Nat) (tags : List (String × TagVal))
+structure Batch (pol : Policy) (interval : Option Rat) (entries : List String) (rid : Nat) (tags : List (String × TagVal))
     (L : Option Rat) (h : Rat) (rs : List Row) : Prop where
   time : ∀ r ∈ rs, r.time = h
   run : ∀ r ∈ rs, r.run = rid
@@ -145,7 +153,7 @@ structure Batch (interval : Option Rat) (entries : List String) (rid : Nat) (tag
   has_entry : ∀ r ∈ rs, r.name ∈ entries
   names : (rs.map (·.name)).Nodup
   later : ∀ l, L = some l → l < h
-  apart : ∀ l, L = some l → interval ≠ none ∧ ∀ d, interval = some d → d < h - l
+  apart : ∀ l, L = some l → interval ≠ none ∧ ∀ d, interval = some d → Gap pol d (h - l)
 
 theorem nodup_map_filterMap_rows (entries : List String) (rid : Nat) (h : Rat) (ps : List (String × TagVal))
     (hk : (keys ps).Nodup) :
@@ -191,31 +199,31 @@ theorem nodup_filter_keys (tags : List (String × TagVal)) (f : String × TagVal
 def batchRows (entries : List String) (rid : Nat) (h : Rat) (ps : List (String × TagVal)) : List Row :=
   ps.filterMap (fun q => if entries.contains q.1 then some ⟨rid, q.1, h, q.2.value, q.2.time⟩ else none)
 
-theorem persist_not_exceeded (interval : Option Rat) (entries : List String) (rid : Nat)
+theorem persist_not_exceeded (pol : Policy) (interval : Option Rat) (entries : List String) (rid : Nat)
     (tags : List (String × TagVal)) (L : Option Rat)
-    (hex : thresholdExceeded interval L (latestTagTime tags) = false) :
-    persist interval entries rid tags L = (L, .rows []) := by
+    (hex : thresholdExceeded pol interval L (latestTagTime tags) = false) :
+    persist pol interval entries rid tags L = (L, .rows []) := by
   simp [persist, hex]
 
-theorem persist_empty (interval : Option Rat) (entries : List String) (rid : Nat)
+theorem persist_empty (pol : Policy) (interval : Option Rat) (entries : List String) (rid : Nat)
     (tags : List (String × TagVal)) (L : Option Rat)
-    (hex : thresholdExceeded interval L (latestTagTime tags) = true) (hps : toPersist tags L = []) :
-    persist interval entries rid tags L = (L, .valueError) := by
+    (hex : thresholdExceeded pol interval L (latestTagTime tags) = true) (hps : toPersist tags L = []) :
+    persist pol interval entries rid tags L = (L, .valueError) := by
   simp [persist, hex, hps]
 
-theorem persist_batch (interval : Option Rat) (entries : List String) (rid : Nat)
+theorem persist_batch (pol : Policy) (interval : Option Rat) (entries : List String) (rid : Nat)
     (tags : List (String × TagVal)) (L : Option Rat) (p : String × TagVal) (ps : List (String × TagVal))
-    (hex : thresholdExceeded interval L (latestTagTime tags) = true) (hps : toPersist tags L = p :: ps) :
-    persist interval entries rid tags L =
+    (hex : thresholdExceeded pol interval L (latestTagTime tags) = true) (hps : toPersist tags L = p :: ps) :
+    persist pol interval entries rid tags L =
       (some (maxFrom p.2.time (ps.map (·.2.time))),
        .rows (batchRows entries rid (maxFrom p.2.time (ps.map (·.2.time))) (p :: ps))) := by
   simp [persist, hex, hps, batchRows]
 
-theorem batch_of_persist (interval : Option Rat) (entries : List String) (rid : Nat)
+theorem batch_of_persist (pol : Policy) (interval : Option Rat) (entries : List String) (rid : Nat)
     (tags : List (String × TagVal)) (L : Option Rat) (p : String × TagVal) (ps : List (String × TagVal))
     (hk : (keys tags).Nodup)
-    (hex : thresholdExceeded interval L (latestTagTime tags) = true) (hps : toPersist tags L = p :: ps) :
-    Batch interval entries rid tags L (maxFrom p.2.time (ps.map (·.2.time)))
+    (hex : thresholdExceeded pol interval L (latestTagTime tags) = true) (hps : toPersist tags L = p :: ps) :
+    Batch pol interval entries rid tags L (maxFrom p.2.time (ps.map (·.2.time)))
       (batchRows entries rid (maxFrom p.2.time (ps.map (·.2.time))) (p :: ps)) := by
   have hsub : ∀ q ∈ p :: ps, q ∈ tags ∧ (∀ l, L = some l → l < q.2.time) := by
     intro q hq
@@ -266,7 +274,8 @@ theorem batch_of_persist (interval : Option Rat) (entries : List String) (rid : 
       refine ⟨by simp, ?_⟩
       intro d' hd'
       cases hd'
-      have hex' : d < latestTagTime tags - l := by simpa using hex
+      have hex' : Gap pol d (latestTagTime tags - l) := by
+        unfold Gap; split <;> simp_all
       -- the latest tag is newer than `l`, hence among the persisted ones
       have hm : latestTagTime tags ≤ maxFrom p.2.time (ps.map (·.2.time)) := by
         by_cases hle : latestTagTime tags ≤ l
@@ -291,21 +300,21 @@ theorem batch_of_persist (interval : Option Rat) (entries : List String) (rid : 
             simpa using this
           have := hmax q hqin
           grind
-      grind
+      exact gap_mono pol d _ _ hex' (by grind)
 
 /-- The three possible results of `_persist_tag_values`. -/
-theorem persist_cases (interval : Option Rat) (entries : List String) (rid : Nat)
+theorem persist_cases (pol : Policy) (interval : Option Rat) (entries : List String) (rid : Nat)
     (tags : List (String × TagVal)) (L : Option Rat) (hk : (keys tags).Nodup) :
-    persist interval entries rid tags L = (L, .rows []) ∨
-    persist interval entries rid tags L = (L, .valueError) ∨
-    ∃ h rs, persist interval entries rid tags L = (some h, .rows rs) ∧ Batch interval entries rid tags L h rs := by
-  cases hex : thresholdExceeded interval L (latestTagTime tags) with
-  | false => exact Or.inl (persist_not_exceeded _ _ _ _ _ hex)
+    persist pol interval entries rid tags L = (L, .rows []) ∨
+    persist pol interval entries rid tags L = (L, .valueError) ∨
+    ∃ h rs, persist pol interval entries rid tags L = (some h, .rows rs) ∧ Batch pol interval entries rid tags L h rs := by
+  cases hex : thresholdExceeded pol interval L (latestTagTime tags) with
+  | false => exact Or.inl (persist_not_exceeded _ _ _ _ _ _ hex)
   | true =>
     cases hps : toPersist tags L with
-    | nil => exact Or.inr (Or.inl (persist_empty _ _ _ _ _ hex hps))
+    | nil => exact Or.inr (Or.inl (persist_empty _ _ _ _ _ _ hex hps))
     | cons p ps =>
-      exact Or.inr (Or.inr ⟨_, _, persist_batch _ _ _ _ _ p ps hex hps, batch_of_persist _ _ _ _ _ p ps hk hex hps⟩)
+      exact Or.inr (Or.inr ⟨_, _, persist_batch _ _ _ _ _ _ p ps hex hps, batch_of_persist _ _ _ _ _ _ p ps hk hex hps⟩)
 
 /-! ### a stream of tag-update messages for an active run -/
 
@@ -324,48 +333,49 @@ def Reported (s : State) (ops : List Op) (p : String × TagVal) : Prop :=
 
 theorem step_tags_active (s : State) (rid : Nat) (L : Option Rat) (mr : Option Nat) (ups : List Update)
     (hrun : s.run = some (rid, L)) (hk : (keys s.tags).Nodup) :
+    (step s (.tags mr ups)).1.pol = s.pol ∧
     (step s (.tags mr ups)).1.interval = s.interval ∧ (step s (.tags mr ups)).1.entries = s.entries ∧
     (keys (step s (.tags mr ups)).1.tags).Nodup ∧
     (∀ p ∈ (step s (.tags mr ups)).1.tags, p ∈ s.tags ∨ ∃ u ∈ ups, p = ofUpdate u) ∧
     (((step s (.tags mr ups)).1.run = some (rid, L) ∧ rowsOf (step s (.tags mr ups)).2 = []) ∨
       ∃ h, (step s (.tags mr ups)).1.run = some (rid, some h) ∧
-        Batch s.interval s.entries rid (step s (.tags mr ups)).1.tags L h (rowsOf (step s (.tags mr ups)).2)) := by
+        Batch s.pol s.interval s.entries rid (step s (.tags mr ups)).1.tags L h (rowsOf (step s (.tags mr ups)).2)) := by
   cases mr with
   | none =>
     have : step s (.tags none ups) = (s, .skipped) := by simp [step, hrun]
     rw [this]
-    exact ⟨rfl, rfl, hk, fun p hp => Or.inl hp, Or.inl ⟨hrun, rfl⟩⟩
+    exact ⟨rfl, rfl, rfl, hk, fun p hp => Or.inl hp, Or.inl ⟨hrun, rfl⟩⟩
   | some m =>
     have hst : step s (.tags (some m) ups) =
-        ({ s with tags := applyUpdates s.tags ups,
-                  run := some (rid, (persist s.interval s.entries rid (applyUpdates s.tags ups) L).1) },
-         (persist s.interval s.entries rid (applyUpdates s.tags ups) L).2) := by
+        ({ s with tags := applyUpdates s.pol s.tags ups,
+                  run := some (rid, (persist s.pol s.interval s.entries rid (applyUpdates s.pol s.tags ups) L).1) },
+         (persist s.pol s.interval s.entries rid (applyUpdates s.pol s.tags ups) L).2) := by
       simp [step, hrun]
     rw [hst]
-    have hk' := nodup_applyUpdates s.tags ups hk
-    refine ⟨rfl, rfl, hk', mem_applyUpdates s.tags ups, ?_⟩
-    rcases persist_cases s.interval s.entries rid (applyUpdates s.tags ups) L hk' with h | h | ⟨h, rs, he, hb⟩
+    have hk' := nodup_applyUpdates s.pol s.tags ups hk
+    refine ⟨rfl, rfl, rfl, hk', mem_applyUpdates s.pol s.tags ups, ?_⟩
+    rcases persist_cases s.pol s.interval s.entries rid (applyUpdates s.pol s.tags ups) L hk' with h | h | ⟨h, rs, he, hb⟩
     · left; rw [h]; exact ⟨rfl, rfl⟩
     · left; rw [h]; exact ⟨rfl, rfl⟩
     · right; rw [he]; exact ⟨h, rfl, hb⟩
 
 /-- The relation between an earlier row `a` and a later row `b` of the run. -/
-def Ordered (interval : Option Rat) (a b : Row) : Prop :=
+def Ordered (pol : Policy) (interval : Option Rat) (a b : Row) : Prop :=
   (a.time = b.time ∧ a.name ≠ b.name) ∨
-  (a.time < b.src ∧ interval ≠ none ∧ ∀ d, interval = some d → d < b.time - a.time)
+  (a.time < b.src ∧ interval ≠ none ∧ ∀ d, interval = some d → Gap pol d (b.time - a.time))
 
-structure RowsOK (interval : Option Rat) (entries : List String) (rid : Nat) (L : Option Rat)
+structure RowsOK (pol : Policy) (interval : Option Rat) (entries : List String) (rid : Nat) (L : Option Rat)
     (reported : String × TagVal → Prop) (rs : List Row) : Prop where
   each : ∀ r ∈ rs, r.run = rid ∧ r.src ≤ r.time ∧ r.name ∈ entries ∧ reported (r.name, ⟨r.value, r.src⟩)
-  afterL : ∀ l, L = some l → ∀ r ∈ rs, l < r.src ∧ interval ≠ none ∧ ∀ d, interval = some d → d < r.time - l
-  pair : rs.Pairwise (Ordered interval)
+  afterL : ∀ l, L = some l → ∀ r ∈ rs, l < r.src ∧ interval ≠ none ∧ ∀ d, interval = some d → Gap pol d (r.time - l)
+  pair : rs.Pairwise (Ordered pol interval)
 
 theorem runOps_cons (s : State) (op : Op) (ops : List Op) :
     runOps s (op :: ops) = ((runOps (step s op).1 ops).1, rowsOf (step s op).2 ++ (runOps (step s op).1 ops).2) := by
   simp [runOps]
 
-theorem batch_pairwise (interval : Option Rat) (h : Rat) (rs : List Row)
-    (ht : ∀ r ∈ rs, r.time = h) (hn : (rs.map (·.name)).Nodup) : rs.Pairwise (Ordered interval) := by
+theorem batch_pairwise (pol : Policy) (interval : Option Rat) (h : Rat) (rs : List Row)
+    (ht : ∀ r ∈ rs, r.time = h) (hn : (rs.map (·.name)).Nodup) : rs.Pairwise (Ordered pol interval) := by
   induction rs with
   | nil => exact List.Pairwise.nil
   | cons r rs ih =>
@@ -381,7 +391,7 @@ theorem batch_pairwise (interval : Option Rat) (h : Rat) (rs : List Row)
 
 theorem rows_ok (ops : List Op) (hops : ∀ op ∈ ops, IsTags op) :
     ∀ (s : State) (rid : Nat) (L : Option Rat), s.run = some (rid, L) → (keys s.tags).Nodup →
-      RowsOK s.interval s.entries rid L (Reported s ops) (runOps s ops).2 := by
+      RowsOK s.pol s.interval s.entries rid L (Reported s ops) (runOps s ops).2 := by
   induction ops with
   | nil =>
     intro s rid L _ _
@@ -391,7 +401,7 @@ theorem rows_ok (ops : List Op) (hops : ∀ op ∈ ops, IsTags op) :
     have hop := hops op (by simp)
     match op, hop with
     | .tags mr ups, _ =>
-      obtain ⟨hi, he, hk₁, hsub, hcase⟩ := step_tags_active s rid L mr ups hrun hk
+      obtain ⟨hp, hi, he, hk₁, hsub, hcase⟩ := step_tags_active s rid L mr ups hrun hk
       rw [runOps_cons]
       have hrep : ∀ p, Reported (step s (.tags mr ups)).1 ops p → Reported s (.tags mr ups :: ops) p := by
         intro p hp
@@ -402,11 +412,11 @@ theorem rows_ok (ops : List Op) (hops : ∀ op ∈ ops, IsTags op) :
         · exact Or.inr ⟨o, by simp [ho], u, hu, hpe⟩
       rcases hcase with ⟨hrun₁, hrows⟩ | ⟨h, hrun₁, hb⟩
       · have IH := ih (fun o ho => hops o (by simp [ho])) _ rid L hrun₁ hk₁
-        rw [hi, he] at IH
+        rw [hp, hi, he] at IH
         rw [hrows, List.nil_append]
         exact ⟨fun r hr => let ⟨a, b, c, d⟩ := IH.each r hr; ⟨a, b, c, hrep _ d⟩, IH.afterL, IH.pair⟩
       · have IH := ih (fun o ho => hops o (by simp [ho])) _ rid (some h) hrun₁ hk₁
-        rw [hi, he] at IH
+        rw [hp, hi, he] at IH
         refine ⟨?_, ?_, ?_⟩
         · intro r hr
           rcases List.mem_append.mp hr with hr | hr
@@ -426,10 +436,9 @@ theorem rows_ok (ops : List Op) (hops : ∀ op ∈ ops, IsTags op) :
           · obtain ⟨a, b, c⟩ := IH.afterL h rfl r hr
             refine ⟨by grind, b, ?_⟩
             intro d hd
-            have := c d hd
-            grind
+            exact gap_mono _ d _ _ (c d hd) (by grind)
         · rw [List.pairwise_append]
-          refine ⟨batch_pairwise _ h _ hb.time hb.names, IH.pair, ?_⟩
+          refine ⟨batch_pairwise _ _ h _ hb.time hb.names, IH.pair, ?_⟩
           intro a ha b hb'
           right
           obtain ⟨x, y, z⟩ := IH.afterL h rfl b hb'
@@ -442,13 +451,14 @@ theorem nodup_step (s : State) (op : Op) (hk : (keys s.tags).Nodup) : (keys (ste
   | uod r i => exact hk
   | newRun => exact hk
   | stopRun => exact hk
+  | reconnect => simp [step, keys]
   | tags mr ups =>
     simp only [step]
     split
     · exact hk
     · exact hk
-    · exact nodup_applyUpdates _ _ hk
-    · exact nodup_applyUpdates _ _ hk
+    · exact nodup_applyUpdates _ _ _ hk
+    · exact nodup_applyUpdates _ _ _ hk
 
 theorem nodup_runOps (ops : List Op) : ∀ (s : State), (keys s.tags).Nodup → (keys (runOps s ops).1.tags).Nodup := by
   induction ops with
